@@ -400,3 +400,129 @@ def ob_resumed_run_times_out(T: int, c: int, finishes: bool, d: int) -> bool:
 
 
 TMAXR = B(3, 4)
+
+
+# ------------------------------------------------------------------ "a run that finishes first is never timed out", runner level
+# The runner reads the clock (adapter.get_now) several times per iteration; between a step returning its StopEvent and the loop
+# reducing that result the clock may pass the deadline (a slow tick hook, the 0.5 s task clean-up, a GC pause).  The run finished
+# first: it must complete.
+
+class _JumpClock:
+    """virtual clock = loop time + jumps; the k-th read through the `jumping` view first adds jumps[k] (time that passes just before
+    the control loop looks at the clock); the `plain` view (used by the step to note when it finished) adds nothing"""
+
+    def __init__(self, loop, jumps) -> None:
+        self.loop, self.jumps, self.k, self.extra, self.first = loop, list(jumps), 0, 0, None
+
+    def now(self) -> float:
+        return self.loop.time() + self.extra
+
+    def read(self) -> float:
+        if self.k < len(self.jumps):
+            self.extra += self.jumps[self.k]
+        self.k += 1
+        v = self.now()
+        if self.first is None:
+            self.first = v
+        return v
+
+
+class _JumpingView:
+    def __init__(self, clock: _JumpClock) -> None:
+        self._c = clock
+
+    def time(self) -> float:
+        return self._c.read()
+
+    monotonic = time
+    perf_counter = time
+
+
+class _PlainView:
+    def __init__(self, clock: _JumpClock) -> None:
+        self._c = clock
+
+    def time(self) -> float:
+        return self._c.now()
+
+    monotonic = time
+    perf_counter = time
+
+
+class _FinishW(Workflow):
+    @step
+    async def work(self, ctx: Context, ev: StartEvent) -> StopEvent:
+        import asyncio
+
+        await asyncio.sleep(self.d)
+        self.finished_at = self.clock.now()
+        return StopEvent(result="done")
+
+
+NJUMP = 5
+JMAX = 2
+
+
+@obligation(quick=200, thorough=400, partitions_quick=[f"T == {t}" for t in (1, 2, 3)],
+            partitions_thorough=[f"T == {t} and j0 == {j}" for t in (1, 2, 3, 4) for j in (0, 1, 2)],
+            what="whole run, real BasicRuntime and runner loop on the virtual-time loop with a clock that jumps by symbolic amounts at each of "
+                 "the runner's first clock reads (time passing between a step returning and the loop reducing its result): a run whose step "
+                 "returned its StopEvent strictly before start + timeout completes with that result and publishes no WorkflowTimedOutEvent; "
+                 "a run that fails with WorkflowTimeoutError had not finished before the deadline",
+            bounds={"timeout T": "1..3 (thorough 4)", "step duration d": "0..1", "jumps": "5 reads x 0..2 s"})
+def ob_finished_first_is_not_timed_out(T: int, d: int, j0: int, j1: int, j2: int, j3: int, j4: int) -> bool:
+    """
+    pre: 1 <= T <= TMAXR and 0 <= d <= 1
+    pre: 0 <= j0 <= JMAX and 0 <= j1 <= JMAX and 0 <= j2 <= JMAX and 0 <= j3 <= JMAX and 0 <= j4 <= JMAX
+    post: _
+    """
+    import asyncio
+
+    import workflows.plugins.basic as basic_mod
+    import workflows.runtime.types.step_function as sf_mod
+    from vlib.miniloop import MiniLoop
+
+    T, d = conc(T, 1, 4), conc(d, 0, 1)
+    jumps = [conc(j, 0, JMAX) for j in (j0, j1, j2, j3, j4)]
+    loop = MiniLoop()
+    clock = _JumpClock(loop, jumps)
+    out: dict = {}
+
+    async def main():
+        w = _FinishW(timeout=T, runtime=basic_mod.BasicRuntime())
+        w.d, w.clock, w.finished_at = d, clock, None
+        h = w.run(run_id="r1")
+        seen = []
+
+        async def watch():
+            async for e in h.stream_events(expose_internal=True):
+                seen.append(e)
+
+        wt = asyncio.ensure_future(watch())
+        try:
+            out["kind"], out["val"] = "result", await asyncio.wait_for(h, timeout=T + 30)
+        except WorkflowTimeoutError:
+            out["kind"] = "timeout"
+        except asyncio.TimeoutError:
+            out["kind"] = "HUNG"
+            wt.cancel()
+            return
+        await wt
+        out["timed_out_events"] = [e for e in seen if isinstance(e, WorkflowTimedOutEvent)]
+        out["finished_at"] = w.finished_at
+
+    saved = (basic_mod.time, sf_mod.time)
+    basic_mod.time, sf_mod.time = _JumpingView(clock), _PlainView(clock)
+    try:
+        loop.run_until_complete(main())
+    finally:
+        basic_mod.time, sf_mod.time = saved
+    if clock.first is None or out.get("kind") not in ("result", "timeout"):
+        return False
+    deadline = clock.first + T
+    fin = out.get("finished_at")
+    if fin is not None and fin < deadline:
+        return out["kind"] == "result" and out.get("val") == "done" and not out.get("timed_out_events")
+    if out["kind"] == "timeout":
+        return fin is None or fin >= deadline
+    return True
